@@ -3,6 +3,7 @@ package main
 import (
 	"fmt"
 	"go/ast"
+	"go/constant"
 	"go/token"
 	"go/types"
 	"sort"
@@ -79,41 +80,90 @@ func ruleErrorIffDiagnostic(c *Ctx, r *Report, rule string) {
 		})
 		r.check(sets == 1 && logs && !early, rule, "errorAt", "logs 'line L:C: error…' and sets hadError unconditionally", fmt.Sprintf("errorAt must log the 'line %%s: error' prefix with the token position and set hadError = true on every path (flag stores %d, prefix logged %v, early return %v)", sets, logs, early), c.pos(fd.Pos()))
 	}
-	// parse: error iff hadError
+	// parse: error iff hadError — on every interpreted path the flag is consulted, and the error result is non-nil
+	// exactly when it was found set
 	if _, fd := c.find("parse"); fd == nil {
 		r.bad(rule, "parse", "function not found", "")
 	} else {
-		okErr, okNil := false, false
-		nRet := 0
-		for _, s := range fd.Body.List {
-			switch s := s.(type) {
-			case *ast.IfStmt:
-				if c.fieldPath(s.Cond) == "<parser>.hadError" {
-					for _, b := range s.Body.List {
-						if rs, ok := b.(*ast.ReturnStmt); ok && len(rs.Results) == 3 {
-							if id, isNil := rs.Results[2].(*ast.Ident); !isNil || id.Name != "nil" {
-								okErr = true
-							}
-						}
-					}
+		var h Hooks
+		errIface := types.Universe.Lookup("error").Type().Underlying().(*types.Interface)
+		h.Inline = func(fn *types.Func) bool {
+			if fn.Pkg() == nil || fn.Pkg().Path() != bclPath {
+				return false
+			}
+			res := fn.Type().(*types.Signature).Results()
+			return res.Len() == 1 && isErrorType(res.At(0).Type())
+		}
+		h.Load = func(in *Interp, st *State, e ast.Expr) (Value, bool) {
+			switch e := e.(type) {
+			case *ast.SelectorExpr:
+				if c.fieldPath(e) == "<parser>.hadError" {
+					return tagV("hadError", nil), true
 				}
-			case *ast.ReturnStmt:
-				nRet++
-				if len(s.Results) == 3 {
-					if id, isNil := s.Results[2].(*ast.Ident); isNil && id.Name == "nil" {
-						okNil = true
-					}
+			case *ast.CompositeLit:
+				if t := c.typeOf(e); t != nil && (types.Implements(t, errIface) || types.Implements(types.NewPointer(t), errIface)) {
+					return tagV("errv", "constructed"), true
 				}
+			}
+			return Value{}, false
+		}
+		h.BinOp = func(l Value, op token.Token, rv Value) (Value, bool) {
+			if (op == token.EQL || op == token.NEQ) && l.K == vTag && rv.K == vTag {
+				isNil := func(v Value) bool { return v.Tag == "nil" }
+				switch {
+				case isNil(l) && isNil(rv):
+					return constV(constant.MakeBool(op == token.EQL)), true
+				case (l.Tag == "errv" && isNil(rv)) || (rv.Tag == "errv" && isNil(l)):
+					return constV(constant.MakeBool(op == token.NEQ)), true
+				}
+			}
+			return Value{}, false
+		}
+		h.Call = func(in *Interp, st *State, call *ast.CallExpr, callee types.Object, args []Value) ([]valState, bool) {
+			if fn, ok := callee.(*types.Func); ok && (fn.Pkg() == nil || fn.Pkg().Path() != bclPath) {
+				sig := fn.Type().(*types.Signature)
+				if res := sig.Results(); res.Len() == 1 && isErrorType(res.At(0).Type()) {
+					return one(st, tagV("errv", "constructed")), true
+				}
+			}
+			return nil, false
+		}
+		h.Decision = func(in *Interp, st *State, cond ast.Expr, v Value, branch bool) {
+			if v.K == vTag && v.Tag == "hadError" {
+				p := st.P.(*strsPay)
+				p.items = append(p.items, fmt.Sprintf("%v", branch))
 			}
 		}
-		total := 0
-		ast.Inspect(fd.Body, func(n ast.Node) bool {
-			if _, ok := n.(*ast.ReturnStmt); ok {
-				total++
+		in := newInterp(c, h)
+		st := &State{Env: map[types.Object]Value{}, P: &strsPay{}}
+		var args []Value
+		for _, f := range fd.Type.Params.List {
+			for range f.Names {
+				args = append(args, unknownV())
 			}
-			return true
-		})
-		r.check(okErr && okNil && nRet == 1 && total == 2, rule, "parse", "if hadError return err; … return nil", "parse must return a non-nil error exactly under `if p.hadError` and nil at its end (no other returns)", c.pos(fd.Pos()))
+		}
+		res := in.inlineBody(st, fd.Type, fd.Body, fd.Recv, args)
+		var bad []string
+		for _, vs := range res {
+			items := vs.st.P.(*strsPay).items
+			ev := vs.v
+			if ev.K == vTuple && len(ev.Tup) > 0 {
+				ev = ev.Tup[len(ev.Tup)-1]
+			}
+			got := "?"
+			if ev.K == vTag && (ev.Tag == "nil" || ev.Tag == "errv") {
+				got = ev.Tag
+			}
+			switch {
+			case len(items) == 0:
+				bad = append(bad, "a path returns "+got+" without consulting hadError")
+			case items[len(items)-1] == "true" && got != "errv":
+				bad = append(bad, "with hadError set parse returns "+got)
+			case items[len(items)-1] == "false" && got != "nil":
+				bad = append(bad, "with hadError clear parse returns "+got)
+			}
+		}
+		r.check(len(bad) == 0 && len(res) >= 2, rule, "parse", fmt.Sprintf("%d paths: a non-nil error exactly when hadError is set", len(res)), "parse must return a non-nil error exactly when p.hadError is set: "+strings.Join(dedupe(bad), "; "), c.pos(fd.Pos()))
 	}
 	for _, name := range []string{"Interpret", "InterpretFile", "Unmarshal", "UnmarshalFile"} {
 		_, fd := c.find(name)
